@@ -51,7 +51,28 @@ def top_fields(paths, k=0):
     return out
 
 
+def unreset_state_unobservable(ck, F):
+    """RUN does not reset the string manager (interned strings of earlier sessions stay until the next collection), which is
+    fine as long as no program can see it: what the evaluator reaches of StringManager is interning only (`from_str`,
+    `from_string`) -- an accounting read (`total_bytes`, a FRE(0) builtin on top of it) makes the session history observable
+    to the next RUN."""
+    import panics
+    G = panics.CallGraph(F)
+    roots = [b.path for b in F.bodies.values() if b.crate == "abasic_core" and
+             (sfx(b.path, "StatementEvaluator::evaluate_statement") or sfx(b.path, "ExpressionEvaluator::evaluate_expression"))]
+    seen = G.reachable(roots)
+    ALLOWED = ("from_str", "from_string", "default", "new")
+    leaks = sorted({p.split("::")[-1] + " -> StringManager::" + c.callee.split("::")[-1]
+                    for p in seen if "::string_manager::" not in p for c in F.bodies[p].calls()
+                    if "string_manager::StringManager::" in c.callee and c.callee.split("::")[-1] not in ALLOWED})
+    ck.require(bool(roots) and not leaks, "C10:UNRESET:string-manager-not-observable", "clean slate",
+               "statement / expression evaluation reaches only the interning functions of StringManager",
+               "program-visible evaluation reads the string manager's bookkeeping (%s), which RUN does not reset: what a RUN computes "
+               "depends on the strings earlier sessions left behind" % "; ".join(leaks))
+
+
 def run(ck, F, E):
+    unreset_state_unobservable(ck, F)
     ifields = F.adt_fields("interpreter::Interpreter")
     pfields = F.adt_fields("program::Program")
     if ifields is None or pfields is None:
